@@ -21,7 +21,7 @@ TRUSTED = ["number / money / percent lexer glue (exercised)"]
 
 CONV = [(",", "."), (".", ","), (".", ""), (",", "")]
 NUM = re.compile(r"(\d+),(\d+)")
-COMMA_DATE = re.compile(r"([a-z]{3,9} \d{1,2}), (\d{4})")
+COMMA_DATE = re.compile(r"([a-zA-Z]{3,9} \d{1,2}), (\d{1,4})")
 
 
 def rewrite(text, dec, thou, rng):
@@ -99,8 +99,6 @@ def run(ctx, model_ok):
     base = []
     while len(base) < ctx.n(1200, 40000):
         t = gen_line(rng)
-        # the spelling 'Month day, year' uses ',' as punctuation: only meaningful where ',' is a separator
-        t = COMMA_DATE.sub(r"\1 \2", t)
         base.append(mark_ints(t, rng))
     marked = base
     base = [render_ints(t, ".") for t in marked]
